@@ -114,7 +114,7 @@ PROPS["C01"] = {
             "(counting invariant Partition, conservation law live_run), ack removes, nack dead-letters, reject returns to the "
             "category of origin, requeue replaces in one atomic effect, delivery marks exactly one holder. Tie: ~700 random "
             "histories per quick run on the real InMemoryMessageBroker in virtual time (concurrent consumers, cancelled calls), "
-            "abstract state compared with the model after every call, full messages at the end. Redis (RedisBroker.v over RedisSrv.v): enqueue / ack / nack / reject / requeue / take keep every name in exactly one place, each is ONE server transaction (reject: a read, then one), other names untouched; tie: ~150 sequential histories per quick run, the client's whole command/reply stream equal to the model's.",
+            "abstract state compared with the model after every call, full messages at the end. Redis (RedisBroker.v over RedisSrv.v): enqueue / ack / nack / reject / requeue / take keep every name in exactly one place, each is ONE server transaction (reject: a read, then one), other names untouched; tie: ~150 sequential histories per quick run, the client's whole command/reply stream equal to the model's. RabbitMQ (RabbitBroker.v over AmqpSrv.v): every AMQP method changes the number of places of an id by exactly its delta (publish +1, ack -1, reject 0, nack 0 = dead-lettered), the server's own steps (TTL expiry + dead-lettering, delivery) by 0 (C01_rabbit_*); refuted by witness and recorded: nack of a message taken through the DEAD category discards it, through the DELAYED category promotes it, requeue = ack then publish; tie: ~120 histories per quick run.",
     "note": MEM_NOTE,
     "technique": "Coq proof by counting invariant over all histories + differential correspondence of broker histories",
     "design": "DESIGN.md §3 C01",
@@ -126,7 +126,7 @@ PROPS["C05"] = {
             "wait_until; every update pass moves every due entry. 'Never forgotten' is PARTIAL in Coq (no bound on polls between "
             "update passes) and checked by the oracle on the real consumer: a listening consumer receives the message within "
             "1 s + 3 ms + 1 ms per waiting message after T. Tie: ~500 histories per quick run with due times at every phase of "
-            "the clock and enqueues racing a polling consumer. Redis: due times are stored rounded UP to the second (fix recorded for C05) and the due-window query returns only scores <= floor(now): never early (C05_redis_*); lateness on Redis is bounded by the 0.1 s polling + 1 s rounding (observed, not proved).",
+            "the clock and enqueues racing a polling consumer. Redis: due times are stored rounded UP to the second (fix recorded for C05) and the due-window query returns only scores <= floor(now): never early (C05_redis_*); lateness on Redis is bounded by the 0.1 s polling + 1 s rounding (observed, not proved). RabbitMQ: the delay is a per-message TTL rounded UP to the millisecond (fix recorded for C05) that runs out at the due time or later, and the server lets the message out of the delayed queue only then (C05_rabbit_*); 'never forgotten' is REFUTED (C05_rabbit_delayed_head_of_line_refuted: TTLs run out at the head of the queue only) and recorded.",
     "note": MEM_NOTE,
     "technique": "Coq proof by invariant (due-time invariant over all histories) + differential correspondence in virtual time",
     "design": "DESIGN.md §3 C05",
@@ -136,7 +136,7 @@ PROPS["C12"] = {
             "waiting list goes to the dead-letter list and is retrievable through the dead category; a poll dead-letters "
             "nothing else (live or ttl-less messages are never dropped); overdue is strict (at the expiry instant still live); "
             "reschedule restarts the ttl clock, retry keeps it. Tie: ~600 histories per quick run with clock advances to "
-            "expiry-1us / =expiry / +1us, delayed / retried / rescheduled messages (real _prepare_retry/_prepare_reschedule). Redis: since the fix recorded for C12 only the normal category dead-letters expired messages (a dead-category consumer receives them) and a prefetched message is checked again when handed out; checked by ~150 sequential histories against the model and the oracle.",
+            "expiry-1us / =expiry / +1us, delayed / retried / rescheduled messages (real _prepare_retry/_prepare_reschedule). Redis: since the fix recorded for C12 only the normal category dead-letters expired messages (a dead-category consumer receives them) and a prefetched message is checked again when handed out; checked by ~150 sequential histories against the model and the oracle. RabbitMQ: an expired message delivered to a normal consumer is nacked into <q>:dead and never buffered; one that expires in the buffer is nacked by consume() (fix recorded for C12) (C12_rabbit_*).",
     "note": MEM_NOTE + "Delivery = return of consume(); the in-memory consumer has no prefetch buffer.",
     "technique": "Coq proof over the poll function (all states, all instants) + differential correspondence at exact expiry instants",
     "design": "DESIGN.md §3 C12",
@@ -145,7 +145,7 @@ PROPS["C14"] = {
     "text": "Theorems (in-memory model, any number of consumers, any interleaving of their atomic polls): a delivered message was "
             "held by nobody and is afterwards held exactly once; a held message is not delivered again until it leaves the "
             "processing set; Partition holds in every reachable state; finish() of one consumer returns only its own messages. "
-            "Tie: ~600 histories per quick run with 2-5 consumers polling concurrently on one queue, holders compared after every call. Redis: for one consumer the take is one transaction that moves a present name into 'processing' (C01_redis_grab_places_*); with two consumers it is NOT exclusive - refuted by witness (C14_redis_double_delivery_refuted) and reproduced on the real client on every run as known finding redis_double_delivery_two_consumers.",
+            "Tie: ~600 histories per quick run with 2-5 consumers polling concurrently on one queue, holders compared after every call. Redis: for one consumer the take is one transaction that moves a present name into 'processing' (C01_redis_grab_places_*); with two consumers it is NOT exclusive - refuted by witness (C14_redis_double_delivery_refuted) and reproduced on the real client on every run as known finding redis_double_delivery_two_consumers. RabbitMQ: in a state without duplicates a delivered message was unacknowledged by nobody and gets a fresh delivery tag (C14_rabbit_*); ~100 histories with 1-3 consumers.",
     "note": MEM_NOTE + "All consumers share one process and event loop (the only way to share the in-memory broker). "
             "The 'executed exactly once' corollary is observed through deliveries, not through a worker.",
     "technique": "Coq proof by counting invariant + differential correspondence with concurrently polling consumers",
@@ -157,7 +157,7 @@ PROPS["C15"] = {
             "nothing is rotated); the delivered message is the OLDEST live message of the consumer's queue and topics "
             "(fifo_oldest_first) and arrived before every matching message still waiting; a returned message gets the next "
             "stamp, i.e. is ahead of everything enqueued later. Tie: ~600 histories per quick run, backlogs 0..35 with foreign "
-            "topics, interleaved enqueues, rejects and restarts; oracle: no delivery overtakes an earlier matching live message. Redis (since the fix recorded for C15): the list fetch returns the oldest served name for EVERY list length (C15_redis_take_list_oldest, via the tail-window identity of LRANGE); tie: ~150 sequential histories with backlogs around the window of ten.",
+            "topics, interleaved enqueues, rejects and restarts; oracle: no delivery overtakes an earlier matching live message. Redis (since the fix recorded for C15): the list fetch returns the oldest served name for EVERY list length (C15_redis_take_list_oldest, via the tail-window identity of LRANGE); tie: ~150 sequential histories with backlogs around the window of ten. RabbitMQ: a published message goes behind, a returned one in front of the waiting messages of its priority, other priorities untouched, the head (oldest of the highest priority) is what is delivered (C15_rabbit_*); ~120 single-consumer histories with the delivery-order oracle.",
     "note": MEM_NOTE + "The in-memory broker keeps one FIFO per queue regardless of priority.",
     "technique": "Coq proof by order invariant over arrival stamps + differential correspondence of delivery sequences",
     "design": "DESIGN.md §3 C15",
@@ -174,9 +174,9 @@ PROPS["C11"] = {
             "BLOCK it: a poll delivers exactly when a live message of its queue and topics waits anywhere in the list, and delivers "
             "the first one (C11_mem_foreign_never_blocks; since fix 4c9afb3, which removed the lock-step finding). Tie: ~900 router worlds per quick run compared with the real "
             "Router/Worker objects, ~260 of them with a real Worker run in virtual time on a shared in-memory queue (1-2 workers), "
-            "plus ~250 shared-queue broker histories.",
-    "note": "Dispatch runs use the in-memory broker only: the Redis prefix filter (<topic>:) and the RabbitMQ reject+requeue filter "
-            "are not modelled in this revision. An EXPIRED foreign message may be dead-lettered by any consumer of its queue (C12). "
+            "plus ~250 shared-queue broker histories. RabbitMQ: deliveries respect queue and topic filter (oracle on ~80 histories); 'never blocks on foreign messages' is REFUTED by witness (C11_rabbit_foreign_head_of_line_refuted: reject+requeue returns the foreign message to the front) and recorded.",
+    "note": "Worker dispatch runs use the in-memory broker; the Redis prefix filter is covered by C15/C01's Redis histories, the RabbitMQ "
+            "reject+requeue filter by the RabbitMQ histories here. An EXPIRED foreign message may be dead-lettered by any consumer of its queue (C12). "
             "Actor functions are identified by a number attached to the function object.",
     "technique": "Coq proof by invariant over all declaration/inclusion sequences + differential correspondence on real Router/Worker objects",
     "design": "DESIGN.md §3 C11",
